@@ -106,6 +106,9 @@ SHAPES = {
                                  ("o", c.O([("c", 3)]))]),
     "wrapunits": lambda c, x: c.M([("k", [c.Q(x, "kg m / s"), c.Q(2, "m / s / s"), c.Q(3, "kg m / s"), c.Q(4, "m / s / s"),
                                           c.Q(5, "kg m / s"), c.Q(6, "m / s / s"), c.Q(7, "kg m / s")])]),
+    # elements that are == and hash-equal in Python but of different types (1, 1.0, True / 0, 0.0, False)
+    "hasheq": lambda c, x: c.M([("a", x), ("s", [1, 1.0, 0.0, 0, c.Q(1, "m"), c.Q(1.0, "m"), 1.0, 1])]),
+    "hasheqb": lambda c, x: c.M([("s", [True, 1, 0, False, 1.0, True]), ("a", x), ("t", [False, 0])]),
     "quant": lambda c, x: c.M([("a", c.Q(x, "m")), ("b", [c.Q(x, "km/s**2")])]),
 }
 
@@ -246,6 +249,7 @@ CONFIGS = {
     "noindent": {"indent": 0},
     "noaggend": {"aggregation_end": False},
     "symwidth": {"width": "sym"},
+    "symtiny": {"width": "symtiny"},      # widths 1..14: every statement is longer than the line
 }
 PVL_ONLY = {"nodelim": {"end_delimiter": False}, "crlf": {"newline": "\r\n"}, "delim": {"end_delimiter": True}}
 PDS_ONLY = {"noconvert": {"convert_group_to_object": False}, "notab": {"tab_replace": 0},
@@ -262,10 +266,21 @@ def config(dia, name):
     return None
 
 
+WIDTHS = {"sym": (30, 100), "symtiny": (1, 14)}
+
+
+def width_input(ctx, dia, cfgname, inp):
+    """adds the solver-chosen line width of a configuration with a symbolic width to the inputs"""
+    w = (config(dia, cfgname) or {}).get("width")
+    if w in WIDTHS:
+        inp["width"] = SymInt(ctx.fresh_int("width", *WIDTHS[w]))
+    return inp
+
+
 def make_encoder(L, dia, cfgname, inp, listmods=False):
     d = dialect(L, dia)
     cfg = config(dia, cfgname) or {}
-    if cfg.get("width") == "sym":
+    if cfg.get("width") in WIDTHS:
         cfg["width"] = inp["width"]
     if listmods:
         M, G, O = list_classes(L)
